@@ -510,6 +510,134 @@ static Case gen_c20() {
     return c;
 }
 
+// ============================================================================================ C19
+#include <dlfcn.h>
+struct IsalKnobs {
+    void *h = nullptr; void (*fail_at)(int) = nullptr; int (*inv_calls)(void) = nullptr; void (*table_mode)(int) = nullptr;
+    IsalKnobs() {
+        h = dlopen("libisal.so.2", RTLD_LAZY | RTLD_GLOBAL);
+        if (!h) return;
+        fail_at = (void (*)(int))dlsym(h, "refisal_fail_invert_at");
+        inv_calls = (int (*)(void))dlsym(h, "refisal_invert_calls");
+        table_mode = (void (*)(int))dlsym(h, "refisal_set_table_mode");
+    }
+    bool ok() const { return h && fail_at && inv_calls && table_mode; }
+};
+static IsalKnobs &knobs() { static IsalKnobs k; return k; }
+static Result run_c19(const Case &c) {
+    Result r;
+    if (!isa_available() || !knobs().ok()) { r.skipped = true; return r; }
+    knobs().table_mode((int)c.get("table_mode", 0));
+    r = run_codec(c);
+    knobs().table_mode(0);
+    Config g = cfg_from(c);
+    uint64_t pm = maskof(c.ints("present"), g.n());
+    bool erased_data = false;
+    for (int i = 0; i < g.k; i++) if (!(pm >> i & 1)) erased_data = true;
+    bool lost_dest = false;
+    for (int d : c.ints("dests")) if (d >= 0 && d < g.n() && !(pm >> d & 1)) lost_dest = true;
+    r.nontrivial = erased_data || lost_dest;
+    if (c.get("table_mode", 0)) r.cls("alt_table_encoding");
+    return r;
+}
+static Case gen_c19() {
+    Case c;
+    Config g = gen_config(G_ISAV | G_ISAC);
+    cfg_to(c, g);
+    gen_buffer(c, "data", gen_length(g, std::min<size_t>(len_cap(), 1 << 15)));
+    int n = g.n(), t = g.m;
+    int e = weighted({5, 3, 1}) == 0 ? t : (int)pick(0, std::min(n, t + 1));
+    std::vector<int> E = gen_erasures(g, e);
+    gen_arrangement(c, g, E, true);
+    c.set("force", coin(1, 4) ? 1 : 0);
+    c.set("decode", 1);
+    std::vector<int> dests;
+    for (int x : E) if (coin()) dests.push_back(x);
+    if (coin(1, 3)) dests.push_back((int)pick(0, n - 1));
+    c.setv("dests", dests);
+    c.set("table_mode", coin(1, 4) ? 1 : 0);
+    return c;
+}
+// all erasure sets |E| <= m+1 for both adapters, n <= maxn, every lost destination + one present
+static void sweep_c19() {
+    if (!isa_available()) return;
+    int maxn = (int)opts().geti("maxn", opts().tier == "thorough" ? 12 : 8);
+    int shard = (int)opts().shard, ns = (int)opts().nshards, counter = 0;
+    for (int be : {ref::B_ISA_V, ref::B_ISA_C})
+        for (int k = 1; k < maxn; k++) for (int m = 1; k + m <= maxn; m++) {
+            Config g; g.backend = be; g.k = k; g.m = m; g.hd = m; g.w = (k & 1) ? 8 : 0; g.ct = (m & 1) ? CT_CRC32 : CT_NONE;
+            int n = k + m;
+            for (int e = 0; e <= std::min(n, m + 1); e++)
+                for_subsets(n, e, [&](const std::vector<int> &E) {
+                    if ((counter++ % ns) != shard) return;
+                    Case c = base_case(g, (size_t)k * 3 + (counter % 3), 31000 + (counter & 511));
+                    present_from_erased(c, n, E);
+                    c.set("force", 0); c.set("decode", 1);
+                    std::vector<int> dests(E.begin(), E.end());
+                    for (int d = 0; d < n; d++) if (std::find(E.begin(), E.end(), d) == E.end()) { dests.push_back(d); break; }
+                    c.setv("dests", dests);
+                    c.set("table_mode", (counter / 7) & 1);
+                    sweep_case(c, run_c19);
+                });
+        }
+    stats().exhaustive = true;
+    stats().extra["isa_max_n"] = maxn;
+}
+// injected inversion failure: the public call must fail cleanly, the retry must be exact
+static Result run_c19_inv(const Case &c) {
+    Result r;
+    if (!isa_available() || !knobs().ok()) { r.skipped = true; return r; }
+    Config g = cfg_from(c);
+    std::vector<uint8_t> data = expand_buffer(c, "data");
+    Instance in(g);
+    if (!in.ok()) { r.fail("create refused"); return r; }
+    Stripe s = encode(in.desc, g, data);
+    if (s.rc != 0) { r.fail("encode failed"); return r; }
+    std::vector<int> present = c.ints("present");
+    uint64_t pm = maskof(present, g.n());
+    bool natural_ok = ref::isa_first_k_invertible(g, pm);
+    std::vector<const std::vector<uint8_t> *> frs;
+    for (int p : present) frs.push_back(&s.frags[p]);
+    int dest = (int)c.get("dest");
+    bool use_recon = c.get("use_recon") != 0;
+    for (int pass = 0; pass < 2; pass++) {
+        FragSet fs; fs.build(frs, {});
+        if (pass == 0) knobs().fail_at(0); else knobs().fail_at(-1);
+        int rc; bool exact = false;
+        if (use_recon) { ReconOut o = reconstruct(in.desc, fs, s.fraglen, dest); rc = o.rc; exact = o.out == s.frags[dest]; }
+        else { DecodeOut d = decode(in.desc, fs, s.fraglen, 0); rc = d.rc; exact = d.out == data; }
+        int called = knobs().inv_calls();
+        knobs().fail_at(-1);
+        if (pass == 0) {
+            if (called > 0) { r.cls("inversion_failure_injected"); if (rc >= 0) r.fail(std::string(use_recon ? "reconstruct" : "decode") + " returned " + std::to_string(rc) + " although the matrix inversion reported failure"); }
+            else { r.cls("no_inversion_needed"); if (rc == 0 && !exact) r.fail("wrong bytes"); }
+            r.nontrivial = called > 0;
+        } else {
+            if (natural_ok) { if (rc != 0 || !exact) r.fail(std::string("the call after a failed inversion did not succeed exactly (rc=") + std::to_string(rc) + ")"); }
+            else if (rc == 0 && !exact) r.fail("wrong bytes");
+        }
+    }
+    {   // the instance is destroyed before the leak check
+        int d = in.desc; in.desc = -1; liberasurecode_instance_destroy(d);
+    }
+    if (__lsan_do_recoverable_leak_check() != 0) r.fail("LeakSanitizer: memory still allocated after a failed inversion");
+    return r;
+}
+static Case gen_c19_inv() {
+    Case c;
+    Config g = gen_config(G_ISAV | G_ISAC);
+    cfg_to(c, g);
+    gen_buffer(c, "data", gen_length(g, 2048));
+    int n = g.n();
+    int e = (int)pick(1, g.m);
+    std::vector<int> E = gen_erasures(g, e);
+    gen_arrangement(c, g, E, false);
+    c.set("use_recon", coin() ? 1 : 0);
+    c.set("dest", E.empty() ? 0 : E[pick(0, (int64_t)E.size() - 1)]);
+    (void)n;
+    return c;
+}
+
 int main(int argc, char **argv) {
     Harness h;
     h.prop = "C01";
@@ -524,6 +652,9 @@ int main(int argc, char **argv) {
     h.mode("c03_xor_sweep", [] { sweep_xor_within(run_c03, opts().tier == "thorough"); }, run_c03);
     h.mode("c03_rs_sweep", [] { sweep_rs_boundary(run_c03, ref::B_RS, true); }, run_c03);
     h.mode("c05_decode_sweep", sweep_xor_c05, run_c05);
+    h.mode("c19", [] { rc_property("C19 ISA-L adapters", gen_c19, run_c19); }, run_c19);
+    h.mode("c19_sweep", sweep_c19, run_c19);
+    h.mode("c19_inv", [] { rc_property("C19 inversion failure", gen_c19_inv, run_c19_inv); }, run_c19_inv);
     h.mode("c20", [] { rc_property("C20 forced checks", gen_c20, run_c20); }, run_c20);
     return harness_main(argc, argv, h);
 }
